@@ -11,7 +11,8 @@ import sys
 import rbql
 from rbql import rbql_engine, rbql_csv, csv_utils
 
-if not os.path.realpath(rbql.__file__).startswith('/repo/') and not os.environ.get('VF_ALLOW_OTHER_TREE'):
+from vf.paths import REPO
+if not os.path.realpath(rbql.__file__).startswith(REPO + '/'):
     raise ImportError('vf: rbql imported from %s, not from /repo (PYTHONPATH must start with /repo/rbql-py)' % rbql.__file__)
 
 SYMBOLIC = os.environ.get('VF_SYMBOLIC') == '1'
@@ -124,6 +125,12 @@ class PipeOut(StubOut):
 
     def flush(self):
         self.flushes += 1
+        if self.calls > self.fail_at:
+            raise BrokenPipeError(32, 'Broken pipe')
+
+    def close(self):
+        # closing flushes: a buffered stream whose pipe broke still holds the unwritten data and fails again
+        self.closed = True
         if self.calls > self.fail_at:
             raise BrokenPipeError(32, 'Broken pipe')
 
